@@ -15,7 +15,7 @@ def run(ctx):
     res = vlib.Result()
     res.rule = ("for each random graph: several random legal enumeration orders (referrer-first, referent-first, shuffled, "
                 "git-like) under fakegit, every permutation of trees+tags when there are <=5 (commits in a fixed topological "
-                "order), ROOT arguments in permuted order, and real git with the objects loose / repacked / repacked with a reachability bitmap (all of them, or only what half of the references reach) / with packed refs; "
+                "order), ROOT arguments in permuted order, and real git with the objects loose / repacked / repacked with a reachability bitmap (all of them, or only what half of the references reach) / as the promisor pack of a partial clone / in an object store outside the repository (GIT_OBJECT_DIRECTORY, GIT_ALTERNATE_OBJECT_DIRECTORIES, info/alternates) / with packed refs; "
                 "ALL numeric fields of every run must equal the specification (hence each other); non-trivial = distinct "
                 "(graph, order or layout) with >=3 enumerated objects")
     eng = SC.Engine(ctx)
@@ -69,7 +69,8 @@ def run(ctx):
                         w3 = [r["obj"] for r in SC.build_roots(sc2, o2, []) if r["walk"]]
                         SP.one_case(eng, res, sc2, a2, o2, [], sc2.enum_random(w3, rng), S.HIST_KEYS, "twin references, only the second selected")
             if it % (2 if quick else 1) == 0:
-                for packed, pack_refs in ((False, False), (True, False), (True, True), ("bitmap", False), ("bitmap+loose", True)):
+                for packed, pack_refs in ((False, False), (True, False), (True, True), ("bitmap", False), ("bitmap+loose", True), ("partial", False),
+                                          ("GIT_OBJECT_DIRECTORY", False), ("GIT_ALTERNATE_OBJECT_DIRECTORIES", True), ("objects/info/alternates", False)):
                     SP.one_case(eng, res, sc, args, opts, explicit, None, S.HIST_KEYS, "layout", real=True, packed=packed,
                                 pack_refs=pack_refs)
                     nlay += 1
